@@ -58,7 +58,8 @@ def short(case):
             "sx": case["sx"], "sy": case["sy"], "xrange": case["xrange"], "form": case["form"],
             "noise_free": case["noise_free"], "units(x,y)": case.get("scale", [1.0, 1.0]),
             "x[:3]": case["x"][:3], "y[:3]": case["y"][:3],
-            **({"callable": case["callable"]} if case.get("callable") else {})}
+            **({"callable": case["callable"]} if case.get("callable") else {}),
+            **({"hist": case["hist"]} if case.get("hist") else {})}
 
 
 def tag(case):
@@ -594,6 +595,13 @@ def run_c07(ctx, cases, ref=False):
         if c.get("hist"):
             for st in c["hist"]:
                 dist["history:" + st[0] + (":value-asked-as-" + st[2] if st[0] == "switch" else "")] += 1
+                if st[0] == "session":
+                    dist["history:session:" + st[1]] += 1
+                elif st[0] == "config":
+                    dist["history:config:defaults-restored-by:" + st[3]] += 1
+                    dist["history:config:result-read-meanwhile:" + st[2]] += 1
+                    for ch in st[1]:
+                        dist["history:config:{}-by-{}".format(ch[0], ch[2])] += 1
             for lg in o.get("hist_log", []):
                 if lg[0] == "plot":
                     dist["history:plot:" + lg[1]] += 1
